@@ -258,6 +258,9 @@ def _add_norm(w, terms, c):
     ts = tuple(sorted((i, k) for i, k in acc.items() if k))
     if not ts:
         return const(w, cc[0])
+    if w == 1:
+        # arithmetic modulo 2 is xor
+        return _nary('xor', 1, [node(i) for i, k in ts] + [const(1, cc[0])])
     if len(ts) == 1 and cc[0] == 0:
         k = ts[0][1]
         if k == 1:
